@@ -1,5 +1,744 @@
-//! C01, API level (filled in below).
-use lvharness::suite::Suite;
+//! C01, API level: ingest generated tables through LocustDB::ingest_efficient (EventBuffer /
+//! TableBuffer / ColumnData in every representation, several batches, columns missing from some
+//! batches, optionally through EventBuffer::serialize -> deserialize), then `SELECT cols FROM t` in
+//! row and column format, memory-only or on disk with force_flush between segments, and compare
+//! every cell with what was supplied.
+use crate::colbuf::{nontrivial, shape_of, V};
+use crate::dump::{install_panic_hook, last_panic_location, skeleton};
+use crate::ops::*;
+use crate::values::*;
+use locustdb::{BasicTypeColumn, LocustDB, Options, Value};
+use locustdb_serialization::api::AnyVal;
+use locustdb_serialization::event_buffer::{ColumnBuffer, ColumnData, EventBuffer, TableBuffer};
+use lvharness::rng::Rng;
+use lvharness::suite::{panic_message, Case, Outcome, Suite};
+use lvharness::sx::Sx;
+use std::collections::{BTreeMap, HashMap};
+use std::sync::atomic::{AtomicUsize, Ordering};
+use std::sync::OnceLock;
+use std::time::Duration;
+
 pub fn suites() -> Vec<Box<dyn Suite>> {
-    vec![]
+    vec![Box::new(Api)]
+}
+
+pub struct Api;
+
+fn runtime() -> &'static tokio::runtime::Runtime {
+    static RT: OnceLock<tokio::runtime::Runtime> = OnceLock::new();
+    RT.get_or_init(|| tokio::runtime::Builder::new_multi_thread().worker_threads(2).enable_all().build().unwrap())
+}
+
+// ------------------------------------------------------------------------------------------------
+// case syntax
+
+#[derive(Clone, Debug)]
+pub struct Cfg {
+    pub disk: bool,
+    pub mem_lz4: bool,
+    pub batch_size: usize,
+}
+
+/// how a batch column is handed over
+#[derive(Clone, Debug)]
+pub enum ColSpec {
+    /// TableBuffer::new with this ColumnData; cells are the logical content (length = rows)
+    Data(String, Vec<Cell>), // kind: dense | i64 | string | mixed | empty | sparse | sparse-i64
+    /// built by push_row_and_timestamp from per-row cells
+    Rows(Vec<Cell>),
+}
+
+#[derive(Clone, Debug)]
+pub struct Batch {
+    pub build_rows: bool,
+    pub wire: bool,
+    pub rows: usize,
+    pub cols: Vec<(String, ColSpec)>,
+}
+
+fn cfg_sx(c: &Cfg) -> Sx {
+    Sx::l(vec![Sx::a(if c.disk { "disk" } else { "mem" }), Sx::boolean(c.mem_lz4), Sx::int(c.batch_size)])
+}
+fn parse_cfg(x: &Sx) -> Cfg {
+    let l = x.items();
+    Cfg { disk: l[0].atom() == "disk", mem_lz4: l[1].as_bool(), batch_size: l[2].as_usize() }
+}
+fn batch_sx(b: &Batch) -> Sx {
+    Sx::l(vec![
+        Sx::a(if b.build_rows { "rows" } else { "cols" }),
+        Sx::a(if b.wire { "wire" } else { "native" }),
+        Sx::int(b.rows),
+        Sx::L(b
+            .cols
+            .iter()
+            .map(|(n, s)| match s {
+                ColSpec::Data(k, cells) => Sx::l(vec![Sx::a(n), Sx::a(k), cells_sx(cells)]),
+                ColSpec::Rows(cells) => Sx::l(vec![Sx::a(n), Sx::a("cells"), cells_sx(cells)]),
+            })
+            .collect()),
+    ])
+}
+fn parse_batch(x: &Sx) -> Batch {
+    let l = x.items();
+    let build_rows = l[0].atom() == "rows";
+    Batch {
+        build_rows,
+        wire: l[1].atom() == "wire",
+        rows: l[2].as_usize(),
+        cols: l[3]
+            .items()
+            .iter()
+            .map(|c| {
+                let c = c.items();
+                let cells: Vec<Cell> = c[2].items().iter().map(Cell::parse).collect();
+                let spec = if c[1].atom() == "cells" { ColSpec::Rows(cells) } else { ColSpec::Data(c[1].atom().to_string(), cells) };
+                (c[0].atom().to_string(), spec)
+            })
+            .collect(),
+    }
+}
+
+// ------------------------------------------------------------------------------------------------
+// building the real TableBuffer
+
+fn anyval(c: &Cell) -> AnyVal {
+    match c {
+        Cell::Int(i) => AnyVal::Int(*i),
+        Cell::Float(b) => AnyVal::Float(f64::from_bits(*b)),
+        Cell::Str(s) => AnyVal::Str(String::from_utf8(s.clone()).unwrap()),
+        Cell::Null => AnyVal::Null,
+    }
+}
+
+fn column_data(kind: &str, cells: &[Cell]) -> ColumnData {
+    let f = |c: &Cell| match c {
+        Cell::Float(b) => f64::from_bits(*b),
+        other => panic!("generator: {:?} in a float column", other),
+    };
+    let i = |c: &Cell| match c {
+        Cell::Int(i) => *i,
+        other => panic!("generator: {:?} in an int column", other),
+    };
+    match kind {
+        "dense" => ColumnData::Dense(cells.iter().map(f).collect()),
+        "i64" => ColumnData::I64(cells.iter().map(i).collect()),
+        "string" => ColumnData::String(
+            cells
+                .iter()
+                .map(|c| match c {
+                    Cell::Str(s) => String::from_utf8(s.clone()).unwrap(),
+                    other => panic!("generator: {:?} in a string column", other),
+                })
+                .collect(),
+        ),
+        "mixed" => ColumnData::Mixed(cells.iter().map(anyval).collect()),
+        "sparse" => ColumnData::Sparse(cells.iter().enumerate().map(|(k, c)| (k as u64, f(c))).collect()),
+        "sparse-i64" => ColumnData::SparseI64(cells.iter().enumerate().map(|(k, c)| (k as u64, i(c))).collect()),
+        _ => ColumnData::Empty,
+    }
+}
+
+fn build_table(b: &Batch) -> TableBuffer {
+    if b.build_rows {
+        let mut t = TableBuffer::default();
+        for r in 0..b.rows {
+            let mut row: Vec<(String, AnyVal)> = vec![("timestamp".to_string(), AnyVal::Float(r as f64))];
+            for (n, spec) in &b.cols {
+                if let ColSpec::Rows(cells) = spec {
+                    row.push((n.clone(), anyval(&cells[r])));
+                }
+            }
+            t.push_row_and_timestamp(row);
+        }
+        t
+    } else {
+        let mut cols = HashMap::new();
+        for (n, spec) in &b.cols {
+            if let ColSpec::Data(kind, cells) = spec {
+                cols.insert(n.clone(), ColumnBuffer { data: column_data(kind, cells) });
+            }
+        }
+        TableBuffer::new(cols)
+    }
+}
+
+fn cell_of_anyval(v: &AnyVal) -> Sx {
+    match v {
+        AnyVal::Int(i) => Cell::Int(*i).sx(),
+        AnyVal::Float(f) => Cell::Float(f.to_bits()).sx(),
+        AnyVal::Str(s) => Cell::Str(s.as_bytes().to_vec()).sx(),
+        AnyVal::Null => Cell::Null.sx(),
+    }
+}
+
+/// the ColumnData the engine actually receives, in the model's syntax
+fn coldata_sx(d: &ColumnData) -> Sx {
+    let pair = |(i, v): (&u64, Sx)| Sx::l(vec![Sx::int(i), v]);
+    match d {
+        ColumnData::Empty => Sx::a("empty"),
+        ColumnData::Dense(v) => Sx::l(vec![Sx::a("dense"), Sx::list(v, |f| Sx::int(f.to_bits()))]),
+        ColumnData::Sparse(v) => Sx::l(vec![Sx::a("sparse"), Sx::L(v.iter().map(|(i, f)| pair((i, Sx::int(f.to_bits())))).collect())]),
+        ColumnData::I64(v) => Sx::l(vec![Sx::a("i64"), Sx::list(v, |i| Sx::int(i))]),
+        ColumnData::SparseI64(v) => Sx::l(vec![Sx::a("sparse-i64"), Sx::L(v.iter().map(|(i, x)| pair((i, Sx::int(x)))).collect())]),
+        ColumnData::String(v) => Sx::l(vec![Sx::a("string"), Sx::list(v, |s| Sx::bytes(s.as_bytes()))]),
+        ColumnData::Mixed(v) => Sx::l(vec![Sx::a("mixed"), Sx::list(v, cell_of_anyval)]),
+    }
+}
+
+fn floats_of_coldata(d: &ColumnData, out: &mut Vec<u64>) {
+    match d {
+        ColumnData::Dense(v) => out.extend(v.iter().map(|f| f.to_bits())),
+        ColumnData::Sparse(v) => out.extend(v.iter().map(|(_, f)| f.to_bits())),
+        ColumnData::I64(v) => out.extend(v.iter().map(|i| (*i as f64).to_bits())),
+        ColumnData::SparseI64(v) => out.extend(v.iter().map(|(_, i)| (*i as f64).to_bits())),
+        ColumnData::Mixed(v) => {
+            for x in v {
+                match x {
+                    AnyVal::Float(f) => out.push(f.to_bits()),
+                    AnyVal::Int(i) => out.push((*i as f64).to_bits()),
+                    _ => {}
+                }
+            }
+        }
+        _ => {}
+    }
+}
+
+// ------------------------------------------------------------------------------------------------
+// the specification at table level (independent of ColumnData and of the model)
+
+/// logical cells a batch supplies for a column, after the documented int+float -> float
+/// degradation inside one row-built batch
+fn batch_cells(spec: &ColSpec) -> Vec<Cell> {
+    match spec {
+        ColSpec::Data(_, cells) => cells.clone(),
+        ColSpec::Rows(cells) => {
+            let has_f = cells.iter().any(|c| matches!(c, Cell::Float(_)));
+            cells
+                .iter()
+                .map(|c| match c {
+                    Cell::Int(i) if has_f => Cell::Float((*i as f64).to_bits()),
+                    other => other.clone(),
+                })
+                .collect()
+        }
+    }
+}
+
+fn cells_to_ops(cells: &[Cell]) -> Vec<Op> {
+    // one push per cell: `expected` only depends on the order of cells and their types
+    cells
+        .iter()
+        .map(|c| match c {
+            Cell::Int(i) => Op::Ints(vec![*i], None),
+            Cell::Float(f) => Op::Floats(vec![*f], None),
+            Cell::Str(s) => Op::Strs(vec![String::from_utf8(s.clone()).unwrap()], None),
+            Cell::Null => Op::Nulls(1),
+        })
+        .collect()
+}
+
+/// expected cells of one column over one segment (= one table buffer)
+fn expected_segment(seg: &[Batch], col: &str) -> Vec<Cell> {
+    let mut ops = vec![];
+    for b in seg {
+        match b.cols.iter().find(|(n, _)| n == col) {
+            Some((_, spec)) => {
+                let cells = batch_cells(spec);
+                assert_eq!(cells.len(), b.rows);
+                ops.extend(cells_to_ops(&cells));
+            }
+            None => ops.push(Op::Nulls(b.rows)),
+        }
+    }
+    expected(&ops)
+}
+
+// ------------------------------------------------------------------------------------------------
+// running the database
+
+struct Db {
+    db: Option<LocustDB>,
+    dir: Option<std::path::PathBuf>,
+}
+
+impl Drop for Db {
+    fn drop(&mut self) {
+        drop(self.db.take());
+        if let Some(d) = &self.dir {
+            let _ = std::fs::remove_dir_all(d);
+        }
+    }
+}
+
+static DB_COUNTER: AtomicUsize = AtomicUsize::new(0);
+
+fn open_db(cfg: &Cfg) -> Db {
+    let dir = if cfg.disk {
+        let base = std::path::Path::new("/verif/.cache/scratch");
+        let _ = std::fs::create_dir_all(base);
+        let d = base.join(format!("col-{}-{}", std::process::id(), DB_COUNTER.fetch_add(1, Ordering::SeqCst)));
+        let _ = std::fs::remove_dir_all(&d);
+        Some(d)
+    } else {
+        None
+    };
+    let opts = Options {
+        threads: 2,
+        read_threads: 1,
+        db_path: dir.clone(),
+        mem_lz4: cfg.mem_lz4,
+        batch_size: cfg.batch_size,
+        partition_combine_factor: 999, // no compaction: that is C07's second decoder
+        metrics_table_name: None,
+        ..Options::default()
+    };
+    Db { db: Some(LocustDB::new(&opts)), dir }
+}
+
+fn value_cell(v: &Value) -> Cell {
+    match v {
+        Value::Int(i) => Cell::Int(*i),
+        Value::Float(f) => Cell::Float(f.0.to_bits()),
+        Value::Str(s) => Cell::Str(s.as_bytes().to_vec()),
+        Value::Null => Cell::Null,
+    }
+}
+
+/// column format: the engine's in-band NULL markers are NULL (they are outside the value domain)
+fn column_cells(c: &BasicTypeColumn) -> Vec<Cell> {
+    match c {
+        BasicTypeColumn::Int(v) => v.iter().map(|i| if *i == I64_NULL { Cell::Null } else { Cell::Int(*i) }).collect(),
+        BasicTypeColumn::Float(v) => v.iter().map(|f| if f.to_bits() == F64_NULL { Cell::Null } else { Cell::Float(f.to_bits()) }).collect(),
+        BasicTypeColumn::String(v) => v.iter().map(|s| Cell::Str(s.as_bytes().to_vec())).collect(),
+        BasicTypeColumn::Null(n) => vec![Cell::Null; *n],
+        BasicTypeColumn::Mixed(v) => v.iter().map(value_cell).collect(),
+    }
+}
+
+pub enum Fail {
+    Panic(String, String),
+    Error(String),
+    Hang(String),
+}
+
+struct Selected {
+    rows: BTreeMap<String, Vec<Cell>>,
+    columns: BTreeMap<String, Vec<Cell>>,
+}
+
+fn run_table(cfg: &Cfg, segs: &[Vec<Batch>], colnames: &[String], tables: &[Vec<TableBuffer>]) -> Result<Selected, Fail> {
+    let cfg = cfg.clone();
+    let colnames = colnames.to_vec();
+    let tables: Vec<Vec<(bool, TableBuffer)>> =
+        segs.iter().zip(tables.iter()).map(|(s, t)| s.iter().zip(t.iter()).map(|(b, t)| (b.wire, t.clone())).collect()).collect();
+    let (tx, rx) = std::sync::mpsc::channel();
+    // the whole database lifetime runs on its own thread so that a hang can be reported
+    std::thread::spawn(move || {
+        let r = std::panic::catch_unwind(move || -> Result<Selected, Fail> {
+            let holder = open_db(&cfg);
+            let db = holder.db.as_ref().unwrap();
+            let rt = runtime();
+            let nseg = tables.len();
+            for (k, seg) in tables.into_iter().enumerate() {
+                for (wire, t) in seg {
+                    let mut eb = EventBuffer::default();
+                    eb.tables.insert("t".to_string(), t);
+                    let eb = if wire {
+                        let bytes = eb.serialize();
+                        EventBuffer::deserialize(&bytes).map_err(|e| Fail::Error(format!("deserialize: {:?}", e)))?
+                    } else {
+                        eb
+                    };
+                    rt.block_on(db.ingest_efficient(eb));
+                }
+                if cfg.disk && (k + 1 < nseg || nseg == 1) {
+                    db.force_flush();
+                }
+            }
+            let quoted: Vec<String> = colnames.iter().map(|c| format!("\"{}\"", c)).collect();
+            let q = format!("SELECT {} FROM t", quoted.join(", "));
+            let mut sel = Selected { rows: BTreeMap::new(), columns: BTreeMap::new() };
+            for rowformat in [true, false] {
+                let fut = db.run_query(&q, false, rowformat, vec![]);
+                let out = rt.block_on(async { tokio::time::timeout(Duration::from_secs(20), fut).await });
+                let out = match out {
+                    Err(_) => return Err(Fail::Hang(format!("query did not complete within 20 s (rowformat={})", rowformat))),
+                    Ok(Err(e)) => return Err(Fail::Error(format!("{:?}", e))),
+                    Ok(Ok(o)) => o,
+                };
+                if rowformat {
+                    let rows = out.rows.ok_or_else(|| Fail::Error("row format requested, no rows returned".into()))?;
+                    for (i, c) in out.colnames.iter().enumerate() {
+                        sel.rows.insert(c.clone(), rows.iter().map(|r| value_cell(&r[i])).collect());
+                    }
+                } else {
+                    for (name, col) in &out.columns {
+                        sel.columns.insert(name.clone(), column_cells(col));
+                    }
+                }
+            }
+            drop(holder);
+            Ok(sel)
+        });
+        let r = match r {
+            Ok(r) => r,
+            Err(p) => Err(Fail::Panic(panic_message(p), last_panic_location())),
+        };
+        let _ = tx.send(r);
+    });
+    match rx.recv_timeout(Duration::from_secs(60)) {
+        Ok(r) => r,
+        Err(_) => Err(Fail::Hang("database thread did not finish within 60 s".into())),
+    }
+}
+
+// ------------------------------------------------------------------------------------------------
+// generator
+
+fn v_cell(v: &Option<V>) -> Cell {
+    match v {
+        None => Cell::Null,
+        Some(V::I(i)) => Cell::Int(*i),
+        Some(V::F(f)) => Cell::Float(*f),
+        Some(V::S(s)) => Cell::Str(s.as_bytes().to_vec()),
+    }
+}
+
+fn gen_column_cells(r: &mut Rng, ty: &str, rows: usize, allow_nulls: bool) -> (String, Vec<Cell>) {
+    let pattern = if allow_nulls { *r.pick(&NULL_PATTERNS) } else { "none" };
+    let (class, n_hint) = match ty {
+        "int" => (*r.pick(&INT_CLASSES), rows),
+        "float" => (*r.pick(&FLOAT_CLASSES), rows),
+        _ => (*r.pick(&["dict-low", "dict-threshold", "packed-unique", "unicode", "hex-lower", "hex-upper", "hex-digits", "hex-threshold", "empty", "numeric", "prefixes"]), rows),
+    };
+    // generate exactly `rows` cells: values for the present positions
+    let present = gen_present(r, pattern, rows);
+    let k = present.iter().filter(|p| **p).count();
+    let vals: Vec<V> = match ty {
+        "int" => gen_ints(r, class, k.max(1)).into_iter().map(V::I).collect(),
+        "float" => gen_floats(r, class, k.max(1)).into_iter().map(V::F).collect(),
+        _ => {
+            let mut s = gen_strings(r, class, k.max(1));
+            while s.len() < k {
+                let x = s[r.below(s.len() as u64) as usize].clone();
+                s.push(x);
+            }
+            s.into_iter().map(V::S).collect()
+        }
+    };
+    let _ = n_hint;
+    let mut it = vals.into_iter();
+    let cells = present.iter().map(|p| if *p { v_cell(&it.next()) } else { Cell::Null }).collect();
+    (format!("{}:{}:{}", ty, class, pattern), cells)
+}
+
+fn gen_batch(r: &mut Rng, names: &[(&str, &str)], rows: usize, first: bool) -> (Batch, Vec<String>) {
+    let build_rows = r.chance(1, 2);
+    let wire = r.chance(1, 3);
+    let mut cols = vec![];
+    let mut labels = vec![];
+    for (name, ty) in names {
+        // a column is missing from a batch with probability 1/4 (never all of them: see below)
+        if !first && r.chance(1, 4) {
+            labels.push(format!("{}:missing", ty));
+            continue;
+        }
+        if build_rows {
+            // row API: strings must be present in every row; numbers may be NULL anywhere;
+            // ints and floats may meet in one column
+            match *ty {
+                "str" => {
+                    let (l, cells) = gen_column_cells(r, "str", rows, false);
+                    labels.push(l);
+                    cols.push((name.to_string(), ColSpec::Rows(cells)));
+                }
+                "mixed" => {
+                    // int + float in one row-built column
+                    let (l1, mut a) = gen_column_cells(r, "int", rows, true);
+                    let (_, b) = gen_column_cells(r, "float", rows, true);
+                    for (i, c) in b.into_iter().enumerate() {
+                        if i % 3 == 1 {
+                            a[i] = c;
+                        }
+                    }
+                    labels.push(format!("int+float:{}", l1));
+                    cols.push((name.to_string(), ColSpec::Rows(a)));
+                }
+                t => {
+                    let (l, cells) = gen_column_cells(r, t, rows, true);
+                    labels.push(l);
+                    cols.push((name.to_string(), ColSpec::Rows(cells)));
+                }
+            }
+        } else {
+            match *ty {
+                "int" => {
+                    let (l, cells) = gen_column_cells(r, "int", rows, false);
+                    let kind = if r.chance(1, 5) { "sparse-i64" } else { "i64" };
+                    labels.push(format!("{}:{}", kind, l));
+                    cols.push((name.to_string(), ColSpec::Data(kind.into(), cells)));
+                }
+                "float" => {
+                    let (l, cells) = gen_column_cells(r, "float", rows, false);
+                    let kind = if r.chance(1, 5) { "sparse" } else { "dense" };
+                    labels.push(format!("{}:{}", kind, l));
+                    cols.push((name.to_string(), ColSpec::Data(kind.into(), cells)));
+                }
+                "str" => {
+                    let (l, cells) = gen_column_cells(r, "str", rows, false);
+                    labels.push(format!("string:{}", l));
+                    cols.push((name.to_string(), ColSpec::Data("string".into(), cells)));
+                }
+                _ => {
+                    // ColumnData::Mixed: any cell type incl. NULL; or ColumnData::Empty
+                    if r.chance(1, 6) {
+                        labels.push("empty".into());
+                        cols.push((name.to_string(), ColSpec::Data("empty".into(), vec![Cell::Null; rows])));
+                    } else {
+                        let tys = ["int", "float", "str"];
+                        let t1 = *r.pick(&tys);
+                        let t2 = *r.pick(&tys);
+                        let (_, a) = gen_column_cells(r, t1, rows, true);
+                        let (_, b) = gen_column_cells(r, t2, rows, true);
+                        let cut = r.usize(0, rows);
+                        let cells: Vec<Cell> = (0..rows).map(|i| if i < cut { a[i].clone() } else { b[i].clone() }).collect();
+                        labels.push(format!("mixed:{}+{}", t1, t2));
+                        cols.push((name.to_string(), ColSpec::Data("mixed".into(), cells)));
+                    }
+                }
+            }
+        }
+    }
+    (Batch { build_rows, wire, rows, cols }, labels)
+}
+
+/// a row-built batch only materialises a column if at least one cell is non-NULL, and needs the
+/// timestamp column to carry the length; a cols-built batch needs at least one non-empty column.
+fn batch_is_wellformed(b: &Batch) -> bool {
+    if b.build_rows {
+        true
+    } else {
+        b.cols.iter().any(|(_, s)| matches!(s, ColSpec::Data(k, _) if k != "empty"))
+    }
+}
+
+impl Suite for Api {
+    fn name(&self) -> &'static str {
+        "c01_api"
+    }
+
+    fn generate(&self, seed: u64, tier: &str) -> Vec<Case> {
+        let mut r0 = Rng::new(seed ^ 0xA91_C01);
+        let n_cases = if tier == "thorough" { 4_000 } else { 260 };
+        let mut cases = vec![];
+        for i in 0..n_cases {
+            let mut r = r0.fork(i as u64);
+            let cfg = Cfg {
+                disk: r.chance(2, 5),
+                mem_lz4: r.chance(1, 2),
+                batch_size: *r.pick(&[1024usize, 1024, 1024, 8, 16, 64]),
+            };
+            let ncols = r.usize(1, 4);
+            let tys = ["int", "int", "float", "str", "str", "mixed"];
+            let names: Vec<(String, &str)> = (0..ncols).map(|k| (format!("c{}", k), *r.pick(&tys))).collect();
+            let names_ref: Vec<(&str, &str)> = names.iter().map(|(n, t)| (n.as_str(), *t)).collect();
+            let nseg = if cfg.disk { r.usize(1, 3) } else { 1 };
+            let mut segs = vec![];
+            let mut labels = vec![];
+            let mut first = true;
+            for _ in 0..nseg {
+                let nb = r.usize(1, 3);
+                let mut seg = vec![];
+                for _ in 0..nb {
+                    let rows = match r.below(8) {
+                        0 => *r.pick(&[1usize, 7, 8, 9, 63, 64, 65]),
+                        1 => r.usize(100, 260),
+                        _ => r.usize(1, 40),
+                    };
+                    let mut tries = 0;
+                    loop {
+                        let (b, l) = gen_batch(&mut r, &names_ref, rows, first);
+                        tries += 1;
+                        if batch_is_wellformed(&b) || tries > 5 {
+                            if batch_is_wellformed(&b) {
+                                labels.extend(l);
+                                seg.push(b);
+                            }
+                            break;
+                        }
+                    }
+                    first = false;
+                }
+                if !seg.is_empty() {
+                    segs.push(seg);
+                }
+            }
+            if segs.is_empty() {
+                continue;
+            }
+            labels.sort();
+            labels.dedup();
+            let class = format!(
+                "{}/{}",
+                if cfg.disk { "disk" } else { "mem" },
+                labels.iter().map(|l| l.split(':').next().unwrap_or("").to_string()).collect::<std::collections::BTreeSet<_>>().into_iter().collect::<Vec<_>>().join("+")
+            );
+            let colnames = Sx::L(names.iter().map(|(n, _)| Sx::a(n)).collect());
+            cases.push(Case {
+                class,
+                input: Sx::l(vec![cfg_sx(&cfg), colnames, Sx::L(segs.iter().map(|s| Sx::list(s, batch_sx)).collect())]),
+            });
+        }
+        cases
+    }
+
+    fn run(&self, input: &Sx) -> Vec<Outcome> {
+        install_panic_hook();
+        let it = input.items();
+        let cfg = parse_cfg(&it[0]);
+        let colnames: Vec<String> = it[1].items().iter().map(|a| a.atom().to_string()).collect();
+        let segs: Vec<Vec<Batch>> = it[2].items().iter().map(|s| s.items().iter().map(parse_batch).collect()).collect();
+        let mut outs = vec![];
+
+        // build the real table buffers (a panic here is a malformed case, not a finding of C01)
+        let built = std::panic::catch_unwind(|| segs.iter().map(|s| s.iter().map(build_table).collect::<Vec<_>>()).collect::<Vec<_>>());
+        let tables = match built {
+            Ok(t) => t,
+            Err(e) => {
+                outs.push(Outcome {
+                    model: None,
+                    model_input: None,
+                    impl_out: Some(Sx::a("rejected-by-client-library")),
+                    oracle: None,
+                    signature: Some(format!("client-build-panic:{}", skeleton(&panic_message(e)))),
+                    nontrivial: false,
+                });
+                return outs;
+            }
+        };
+
+        // expected cells per column
+        let mut exp: BTreeMap<String, Vec<Cell>> = BTreeMap::new();
+        for c in &colnames {
+            let mut v = vec![];
+            for seg in &segs {
+                v.extend(expected_segment(seg, c));
+            }
+            exp.insert(c.clone(), v);
+        }
+        // shape facts per column (for the known-finding signatures)
+        let tag_of = |c: &str| -> String {
+            let mut tags = std::collections::BTreeSet::new();
+            for seg in &segs {
+                let mut ops = vec![];
+                for b in seg {
+                    match b.cols.iter().find(|(n, _)| n == c) {
+                        Some((_, spec)) => ops.extend(cells_to_ops(&batch_cells(spec))),
+                        None => ops.push(Op::Nulls(b.rows)),
+                    }
+                }
+                let sh = shape_of(&ops);
+                if sh.int_min_is_i64_min_and_max_is_zero {
+                    tags.insert("min=i64::MIN,max=0");
+                }
+                if sh.increasing_step_overflows {
+                    tags.insert("increasing-step>i64::MAX");
+                }
+                if sh.null_after_mixed {
+                    tags.insert("null-after-mixed");
+                }
+            }
+            if tags.is_empty() { "-".into() } else { tags.into_iter().collect::<Vec<_>>().join("+") }
+        };
+        let all_tags: Vec<String> = {
+            let mut s = std::collections::BTreeSet::new();
+            for c in &colnames {
+                for t in tag_of(c).split('+') {
+                    if t != "-" {
+                        s.insert(t.to_string());
+                    }
+                }
+            }
+            s.into_iter().collect()
+        };
+        let table_tag = if all_tags.is_empty() { "-".to_string() } else { all_tags.join("+") };
+
+        let sel = match run_table(&cfg, &segs, &colnames, &tables) {
+            Ok(s) => s,
+            Err(f) => {
+                let (kind, msg, file) = match f {
+                    Fail::Panic(m, f) => ("panic", m, f),
+                    Fail::Error(m) => ("error", m, String::new()),
+                    Fail::Hang(m) => ("hang", m, String::new()),
+                };
+                outs.push(Outcome {
+                    model: None,
+                    model_input: None,
+                    impl_out: Some(Sx::l(vec![Sx::a(kind), Sx::a(skeleton(&msg))])),
+                    oracle: Some(format!("ingest + SELECT failed ({} {}): {}", kind, file, msg)),
+                    signature: Some(format!("api-{}:{}:{}:{}", kind, file, skeleton(&msg), table_tag)),
+                    nontrivial: true,
+                });
+                return outs;
+            }
+        };
+
+        // model inputs: the ColumnData the engine received, per column and segment
+        let mut floats = vec![];
+        for seg in &tables {
+            for t in seg {
+                for (_, cb) in t.columns() {
+                    floats_of_coldata(&cb.data, &mut floats);
+                }
+            }
+        }
+        let tbl = float_table(floats.iter());
+
+        for c in &colnames {
+            let e = &exp[c];
+            let nt = nontrivial(e);
+            let tag = tag_of(c);
+            let items = Sx::L(tables
+                .iter()
+                .map(|seg| {
+                    Sx::L(seg
+                        .iter()
+                        .map(|t| {
+                            let d = t.columns().find(|(n, _)| *n == c).map(|(_, cb)| coldata_sx(&cb.data));
+                            Sx::l(vec![Sx::opt(d), Sx::int(t.len())])
+                        })
+                        .collect())
+                })
+                .collect());
+            let model_input = Sx::l(vec![tbl.clone(), items]);
+            for (fmt, got) in [("rows", sel.rows.get(c)), ("columns", sel.columns.get(c))] {
+                let got = match got {
+                    Some(g) => g.clone(),
+                    None => {
+                        outs.push(Outcome {
+                            model: None,
+                            model_input: None,
+                            impl_out: Some(Sx::a("column-missing")),
+                            oracle: Some(format!("column {} is missing from the {} output", c, fmt)),
+                            signature: Some(format!("api-column-missing:{}", fmt)),
+                            nontrivial: nt,
+                        });
+                        continue;
+                    }
+                };
+                let diff = first_diff(e, &got);
+                let sig = diff.as_ref().map(|_| format!("api-{}:{}:{}", diff_signature(e, &got), fmt, tag));
+                outs.push(Outcome {
+                    model: if fmt == "rows" { Some("api_table_col".into()) } else { None },
+                    model_input: if fmt == "rows" { Some(model_input.clone()) } else { None },
+                    impl_out: Some(cells_sx(&got)),
+                    oracle: diff.map(|d| format!("column {} ({} format): {}", c, fmt, d)),
+                    signature: sig,
+                    nontrivial: nt,
+                });
+            }
+        }
+        outs
+    }
 }
